@@ -204,7 +204,7 @@ theorem neg_next (a : Expr) (hN : NamesOk ff a = true) (hp : ¬ precedenceOf a <
        all_goals first
          | (intro _ _ h; cases h)
          | skip) <;> simp [spell, tNeg, AsciiHd, hdRune]
-  | bin op p a b => exact absurd (by cases op <;> simp [precedenceOf, binPrec, precUnary, precElvis, precOr, precAnd, precCompare, precAdd, precMul]) hp
+  | bin op p a b => exact absurd (by cases op <;> simp [precedenceOf, binPrec, precUnary, precElvis, precOr, precAnd, precEquality, precCompare, precAdd, precMul]) hp
   | tern p c a b => exact absurd (by simp [precedenceOf, precTernary, precUnary]) hp
 
 end
